@@ -151,7 +151,7 @@ def _subtree(task):
 def run(ctx):
     # (metadata variants, depth, menu) per phase; every phase is a complete enumeration
     if ctx.quick:
-        phases = [("all", 2, "full"), ("first", 3, "core")]
+        phases = [("first2", 2, "full"), ("all", 1, "full"), ("all", 2, "core"), ("first", 3, "core")]
     else:
         phases = [("first", 3, "full"), ("all", 2, "full"), ("all", 3, "core"), ("first", 4, "core")]
     stats = collections.Counter()
@@ -161,7 +161,7 @@ def run(ctx):
     bounds = []
     order = common.shard(range(len(A.METAS)), ctx.seed)
     for which, depth, menu in phases:
-        metas = order if which == "all" else order[:1]
+        metas = order if which == "all" else (order[:2] if which == "first2" else order[:1])
         tasks = []
         for mi in metas:
             evs0 = events(set(), ctx.tier) if menu == "full" else core_events(set())
